@@ -467,6 +467,15 @@ func genTTMLDoc(r *rng) []byte {
 			if r.chance(1, 6) {
 				brTag = "<" + ns.el + "br></" + ns.el + "br>"
 			}
+			if r.chance(1, 8) {
+				// a paragraph that holds nothing but character data (no span, no br), with entity and character references
+				txt := xmlEsc(ttmlWord(r) + " & " + ttmlWord(r) + " < é")
+				if r.bool() {
+					txt = strings.ReplaceAll(txt, "é", []string{"&#233;", "&#xE9;"}[r.intn(2)])
+				}
+				b.WriteString(txt + "</" + ns.el + "p>")
+				continue
+			}
 			nLines := 1 + r.intn(3)
 			for l := 0; l < nLines; l++ {
 				if l > 0 {
